@@ -200,7 +200,7 @@ pub fn run(ctx: &Ctx) {
     ctx.exhausted("all inputs over {00,01,02,03,05,FF} of length <= 7 and over {00,01,02,FF} of length <= 9, for 8 target shapes");
 
     // corrupted valid frames
-    let n = ctx.tier.pick(3_000, 80_000);
+    let n = ctx.tier.pick(20_000, 200_000);
     ctx.par_proptest(
         "corrupted-frames",
         n,
@@ -253,7 +253,7 @@ pub fn run(ctx: &Ctx) {
             check(shape, &f, false, l)
         },
     );
-    let n = ctx.tier.pick(150_000, 10_000_000);
+    let n = ctx.tier.pick(1_500_000, 20_000_000);
     ctx.par_proptest(
         "random-bytes",
         n,
